@@ -90,6 +90,56 @@ pub fn oracle_skip(t: &Tables, c: &VmCase, probe: &mut Probe) -> Result<(), Fail
     Ok(())
 }
 
+/// "Exactly as if the failed one had been a no-op", for the whole rest of the run: in a flat program, replace an
+/// instruction that fails recoverably when it is reached by an explicit `Noop` - both programs must end in the
+/// same state under the same step limit.  (The L / L+1 relation above looks one step ahead; this one also
+/// notices anything the interpreter remembers about a failure.)
+pub fn oracle_noop_substitution(t: &Tables, c: &VmCase, probe: &mut Probe) -> Result<(), Fail> {
+    use crate::model::vm::ExecOp;
+    let total = c.exec.len() + 4;
+    let mut substituted = 0;
+    for i in 0..c.exec.len().min(24) {
+        // the state in which element i is about to be performed
+        let start = c.real(t, i).map_err(|e| Fail::new("setup/state-construction", e))?;
+        let Ok(Ok(mut s_i)) = guarded(move || start.run_to_completion()) else { break };
+        let Ok(top) = s_i.stack_mut::<PushProgram>().pop() else { break };
+        if t.program(&c.exec[i]).as_ref() != Some(&top) {
+            break; // the exec stack was rearranged: position i of the program is no longer what runs at step i
+        }
+        let recoverable = match guarded(move || top.perform(s_i)) {
+            Ok(Err(e)) => e.is_recoverable(),
+            _ => false,
+        };
+        if !recoverable {
+            continue;
+        }
+        let mut with_noop = c.clone();
+        with_noop.exec[i] = Prog::I(Ins::Exec(ExecOp::Noop));
+        let (a, b) = (c.real(t, total).map_err(|e| Fail::new("setup/state-construction", e))?, with_noop.real(t, total).map_err(|e| Fail::new("setup/state-construction", e))?);
+        let (ra, rb) = (guarded(move || a.run_to_completion()), guarded(move || b.run_to_completion()));
+        match (ra, rb) {
+            (Ok(Ok(fa)), Ok(Ok(fb))) => {
+                if !snaps_equal(&snap(&fa), &snap(&fb)) {
+                    fail!(
+                        "run/failed-instruction-not-equivalent-to-noop",
+                        "element {i} of the program fails recoverably when it is reached; with it, and with an explicit Noop in its place, the run (limit {total}) must end in the same state.\nwith the failing instruction: {:?}\nwith Noop instead:           {:?}",
+                        snap(&fa),
+                        snap(&fb)
+                    );
+                }
+                substituted += 1;
+            }
+            (Err(p), _) | (_, Err(p)) => fail!(format!("run/panic:{}", panic_key(&p)), "limit {total}: {p}"),
+            _ => {} // an overflow abort in either: nothing to compare
+        }
+    }
+    probe.nontrivial = substituted > 0;
+    if substituted >= 2 {
+        probe.label("programs with >= 2 recoverably failing elements replaced in turn");
+    }
+    Ok(())
+}
+
 /// A state one of whose maxima was lowered *below* the number of elements the stack already holds
 /// (`set_max_stack_size` on a live state): such a destination stack is full - over-full - and an instruction
 /// that would have to add to it cannot be carried out.  Whatever it reports, the state must come back untouched.
@@ -300,7 +350,7 @@ pub fn run(ctx: &mut Ctx) {
     if !t.uncovered.is_empty() {
         ctx.inconclusive.push(format!("instruction variants unknown to the reference semantics: {:?}", t.uncovered));
     }
-    ctx.rule = "fault_points: every instruction on boundary-biased generated states; shape_space: for every instruction the complete set of stack shapes (sizes 0..3 on each of the four stacks x slack 0/1 on each, 4096 shapes; values pseudo-random) - exhaustive over shapes; shape_space_lowered_maxima: the same sizes with the maximum of one stack (or of all four) lowered by 1 or 2 below the number of elements it already holds before the instruction is performed (a destination that is over-full); skip_semantics: generated programs run under limits L and L+1 around every recoverably failing instruction. non-trivial = the instruction returned an error (fault/shape checks) or a recoverable failure occurred inside the run (skip check); distinct by JSON encoding".into();
+    ctx.rule = "fault_points: every instruction on boundary-biased generated states; shape_space: for every instruction the complete set of stack shapes (sizes 0..3 on each of the four stacks x slack 0/1 on each, 4096 shapes; values pseudo-random) - exhaustive over shapes; shape_space_lowered_maxima: the same sizes with the maximum of one stack (or of all four) lowered by 1 or 2 below the number of elements it already holds before the instruction is performed (a destination that is over-full); noop_substitution: flat programs in which an instruction that can fail for its values recurs at the same depths - each element that fails recoverably when reached is replaced by an explicit Noop and both programs must end in the same state; skip_semantics: generated programs run under limits L and L+1 around every recoverably failing instruction. non-trivial = the instruction returned an error (fault/shape checks) or a recoverable failure occurred inside the run (skip check); distinct by JSON encoding".into();
     ctx.assumptions.push("'state before the instruction' is the state handed to perform (the interpreter has already removed the instruction from exec)".into());
     let (n_fault, n_skip, shape) = ctx.tier.pick((300_000u32, 20_000u32, QUICK_SHAPE), (6_000_000, 600_000, THOROUGH_SHAPE));
     ctx.run_prop("fault_points", n_fault, || single_step_case(&Tables::build()), |c, p| {
@@ -316,6 +366,14 @@ pub fn run(ctx: &mut Ctx) {
     ctx.run_prop("skip_semantics", n_skip, || program_case(&Tables::build(), shape), |c, p| {
         thread_local! { static T: Tables = Tables::build(); }
         T.with(|t| oracle_skip(t, c, p))
+    });
+    ctx.run_prop("skip_semantics_retry", n_skip / 2, || crate::gen_vm::retry_case(&Tables::build()), |c, p| {
+        thread_local! { static T: Tables = Tables::build(); }
+        T.with(|t| oracle_skip(t, c, p))
+    });
+    ctx.run_prop("noop_substitution", n_skip, || crate::gen_vm::retry_case(&Tables::build()), |c, p| {
+        thread_local! { static T: Tables = Tables::build(); }
+        T.with(|t| oracle_noop_substitution(t, c, p))
     });
     ctx.run_prop("skip_semantics_stack_churn", n_skip / 2, || crate::gen_vm::churn_case(&Tables::build()), |c, p| {
         thread_local! { static T: Tables = Tables::build(); }
@@ -363,7 +421,8 @@ pub fn run(ctx: &mut Ctx) {
 pub fn replay(ctx: &mut Ctx, sub: &str, case: &Value) {
     let t = Tables::build();
     match sub {
-        "skip_semantics" => ctx.replay_case::<VmCase, _>(sub, case, |c, p| oracle_skip(&t, c, p)),
+        "skip_semantics" | "skip_semantics_retry" | "skip_semantics_stack_churn" => ctx.replay_case::<VmCase, _>(sub, case, |c, p| oracle_skip(&t, c, p)),
+        "noop_substitution" => ctx.replay_case::<VmCase, _>(sub, case, |c, p| oracle_noop_substitution(&t, c, p)),
         "shape_space_lowered_maxima" => ctx.replay_case::<LoweredCase, _>(sub, case, |c, p| oracle_lowered(&t, c, p)),
         "fuzz_vm_diff" => ctx.replay_case::<VmCase, _>(sub, case, |c, p| crate::props::c01::oracle_program(&t, c, p, 24)),
         _ => ctx.replay_case::<VmCase, _>(sub, case, |c, p| oracle_fault(&t, c, p)),
